@@ -286,6 +286,75 @@ def decision (p : Policy) : Bool := clientAccepts p && serverAccepts p
 /-- session established: policy satisfied and a protocol version agreed -/
 def established (p : Policy) (perm c s : Nat) : Bool := decision p && (negotiated perm c s).isSome
 
+/-! ### configure / connect / reset as state replacement
+
+`tls_configure(ctx, config)` stores the config pointer and, for a server context, builds a *fresh*
+`SSL_CTX` (`SSL_CTX_new`) from that config alone (`tls_configure_server` → `tls_configure_ssl`,
+`tls_configure_keypair`, `tls_configure_ssl_verify`); for a client the fresh `SSL_CTX` is built by
+`tls_connect_fds` from `ctx->config`.  `tls_reset` drops the `SSL_CTX` and keeps the config.
+Nothing of an earlier configuration survives — that is what `SslCtx.ofServerConfig` /
+`ofClientConfig` taking only the config as argument says. -/
+
+/-- the settings a library context hands to OpenSSL in its `SSL_CTX` -/
+structure SslCtx where
+  protocols : UInt32          -- SSL_OP_NO_TLSv1_x for every cleared bit
+  ciphers : CStr              -- SSL_CTX_set_cipher_list unless NULL / one of the four keywords
+  noCheckTime : Bool          -- X509_V_FLAG_NO_CHECK_TIME
+  verifyPeer : Bool           -- SSL_VERIFY_PEER
+  failIfNoPeerCert : Bool     -- SSL_VERIFY_FAIL_IF_NO_PEER_CERT
+  caFile : CStr               -- the trust store: loaded only when verifyPeer
+  caPath : CStr
+  caMem : Mem
+  verifyDepth : Int
+  keypair : List Keypair
+  serverPreference : Bool     -- SSL_OP_CIPHER_SERVER_PREFERENCE
+  deriving DecidableEq, Repr
+
+def SslCtx.ofServerConfig (c : Config) : SslCtx :=
+  { protocols := c.protocols, ciphers := c.ciphers, noCheckTime := c.verifyTime == 0,
+    verifyPeer := c.verifyClient != 0, failIfNoPeerCert := c.verifyClient == 1,
+    caFile := c.caFile, caPath := c.caPath, caMem := c.caMem, verifyDepth := c.verifyDepth,
+    keypair := c.keypair, serverPreference := c.ciphersServer == 1 }
+
+def SslCtx.ofClientConfig (c : Config) : SslCtx :=
+  { protocols := c.protocols, ciphers := c.ciphers, noCheckTime := c.verifyTime == 0,
+    verifyPeer := c.verifyCert != 0, failIfNoPeerCert := false,
+    caFile := c.caFile, caPath := c.caPath, caMem := c.caMem, verifyDepth := c.verifyDepth,
+    keypair := c.keypair, serverPreference := false }
+
+/-- `struct tls` as far as configuration goes -/
+structure TlsCtx where
+  isServer : Bool             -- TLS_SERVER (else TLS_CLIENT)
+  config : Config
+  sslCtx : Option SslCtx
+  deriving DecidableEq, Repr
+
+/-- `tls_client()` / `tls_server()`: the default config, no SSL_CTX yet -/
+def TlsCtx.new (isServer : Bool) (ca0 : Bytes) : TlsCtx := ⟨isServer, Config.new ca0, none⟩
+
+/-- `tls_configure` -/
+def TlsCtx.configure (t : TlsCtx) (c : Config) : TlsCtx :=
+  if t.isServer then { t with config := c, sslCtx := some (SslCtx.ofServerConfig c) }
+  else { t with config := c }
+
+/-- `tls_connect_fds` (client): fresh SSL_CTX from the current config -/
+def TlsCtx.connect (t : TlsCtx) : TlsCtx := { t with sslCtx := some (SslCtx.ofClientConfig t.config) }
+
+/-- `tls_reset` -/
+def TlsCtx.reset (t : TlsCtx) : TlsCtx := { t with sslCtx := none }
+
+/-- the policy a connected client context and a configured server context amount to (read off
+    the two `SSL_CTX` and, for the name check, the client's config) -/
+def Policy.ofCtxs (tc ts : TlsCtx) (serverNameGiven : Bool) (serverCert : PeerCert)
+    (nameCovered : Bool) (clientCert : Option PeerCert) : Option Policy :=
+  match tc.sslCtx, ts.sslCtx with
+  | some cs, some ss =>
+    some { verifyCert := cs.verifyPeer, verifyName := tc.config.verifyName != 0,
+           verifyTime := !cs.noCheckTime, serverNameGiven, serverCert, nameCovered,
+           verifyClient := if !ss.verifyPeer then .off else if ss.failIfNoPeerCert then .required else .optional,
+           serverVerifyTime := !ss.noCheckTime, clientCert }
+  | _, _ => none
+
 /-! ## (v) abstract duplex channel -/
 
 structure Dir where
